@@ -10,7 +10,7 @@ from ..fa import FA, fa_of
 from ..model import ClassInfo, FuncInfo, Program
 from ..rules import names
 from ..rules.rng import TENSOR_INPLACE_DRAWS, TORCH_GLOBAL_DRAWS, classify_ext
-from ..sym import Term, contains, leaves, show, subterms, term_to_poly
+from ..sym import Poly, Term, contains, leaves, show, subterms, term_to_poly
 
 FILES = ["kappadata/samplers/distributed_sampler.py", "kappadata/samplers/random_sampler.py",
          "kappadata/samplers/class_balanced_sampler.py", "kappadata/samplers/weighted_sampler.py",
@@ -290,6 +290,35 @@ def rank_split_rules(prog: Program, rep: Report, C: ClassInfo, fi: FuncInfo, fa:
             if isinstance(x, ast.Subscript) and isinstance(x.slice, ast.Slice) and x.slice.step is not None:
                 splits.append((n, x))
     if not splits:
+        # the split may be written as index arithmetic: rank + world * arange(K) are exactly the positions [rank::world][:K]
+        arith = None
+        for n_, var_, val_ in fa.stores():
+            if val_ is None:
+                continue
+            p_ = term_to_poly(fa.sym.term(val_, n_))
+            ar = [a_ for a_ in p_.atoms() if a_[0] == "call" and a_[1][0] == "global" and a_[1][1].endswith("arange") and len(a_[2]) == 1]
+            if len(ar) == 1 and p_ == Poly.atom(("self", rank_a)) + Poly.atom(("self", world_a)) * Poly.atom(ar[0]):
+                arith = (n_, ar[0][2][0])
+        if arith is not None:
+            k_ = arith[1]
+            k_ok = k_ in (("self", "num_samples"), ("call", ("global", "len"), (("param", fa.self_name),), ()))
+            # the slots are positions in the *repeated, padded* global draw: a slot is first wrapped into the draw (mod its length),
+            # then mapped to its sample (// repeats) - the other order lets the padding continue the permutation instead of wrapping
+            for n2_ in sorted(fa.cfg.nodes):
+                for x_ in fa.cfg.walk_node(n2_):
+                    if isinstance(x_, ast.Subscript) and not isinstance(x_.slice, ast.Slice):
+                        t_ = fa.sym.term(x_.slice, n2_)
+                        if t_[0] == "binop" and t_[1] == "%" and t_[2][0] == "binop" and t_[2][1] == "//" and any(
+                                lf == ("self", rank_a) for lf in leaves(t_[2][2])):
+                            rep.bad("G8.repeat-before-split", fi, "slot-wrap", f"the slot is divided by the repeat count before it is "
+                                    f"wrapped ({show(t_)[:70]}): padding slots continue the permutation with further samples instead of "
+                                    f"wrapping around to the start of the repeated draw - ranks no longer split one global draw",
+                                    line=x_.lineno, clause=clause)
+            rep.decide(True if k_ok else None, "G9.rank-split", fi, "split",
+                       f"positions rank + world * arange({show(k_)}): the strided slice [rank::world] cut to {show(k_)} entries",
+                       f"positions rank + world * arange({show(k_)}): the number of positions is not recognised as the per-rank length",
+                       line=fa.line(arith[0]), clause=clause)
+            return splits
         rep.bad("G9.rank-split", fi, "split", "no strided slice: the global draw is not distributed among ranks",
                 clause=clause)
     for n, x in splits:
@@ -298,8 +327,9 @@ def rank_split_rules(prog: Program, rep: Report, C: ClassInfo, fi: FuncInfo, fa:
         hi = fa.sym.term(x.slice.upper, n) if x.slice.upper is not None else None
         ok = lo == ("self", rank_a) and st == ("self", world_a)
         why = f"[{show(lo) if lo else ''}:{show(hi) if hi else ''}:{show(st)}]"
+        len_world = term_to_poly(("call", ("global", "len"), (("param", fa.self_name),), ())) * term_to_poly(("self", world_a))
         hi_ok = hi is None or hi in (("self", "effective_length"), ("self", "total_size")) or \
-            hi == ("call", ("global", "len"), (fa.sym.term(x.value, n),), ())
+            hi == ("call", ("global", "len"), (fa.sym.term(x.value, n),), ()) or term_to_poly(hi) == len_world
         rep.decide(ok and hi_ok, "G9.rank-split", fi, "split", f"strided slice {why}",
                    f"the rank split {why} is not [self.{rank_a} : <total> : self.{world_a}]", line=x.lineno,
                    clause=clause)
@@ -331,14 +361,21 @@ def rank_split_rules(prog: Program, rep: Report, C: ClassInfo, fi: FuncInfo, fa:
                     if term_to_poly(fa.sym.term(x.slice.upper, n)) == want_pre:
                         pre.add(n)
         # every rank split (a fast path may have its own) must be followed by the cut on every path to a yield it feeds
-        ok = bool(trunc) or bool(pre)
+        ok = True
         any_y = False
         for sn_, _x in splits:
             ys_ = [y for y in ys if fa.cfg.reachable(sn_, y) or y == sn_]
             any_y = any_y or bool(ys_)
             cut_before = bool(pre) and _x.slice.upper is None and fa.cfg.must_pass(pre, src=fa.cfg.entry, dst=sn_) and sn_ not in pre
-            ok = ok and (cut_before or all(y in trunc or sn_ in trunc or (
-                y != sn_ and fa.cfg.must_pass(trunc, src=sn_, dst=y)) for y in ys_))
+            # an explicit upper bound len(self) * world, or a draw of exactly that many entries, cuts as well
+            if _x.slice.upper is not None and term_to_poly(fa.sym.term(_x.slice.upper, sn_)) == want_pre:
+                cut_before = True
+            src_t = fa.sym.term(_x.value, sn_)
+            if src_t[0] == "call" and src_t[1] == ("global", "torch.multinomial") and len(src_t[2]) >= 2 and \
+                    term_to_poly(src_t[2][1]) == want_pre:
+                cut_before = True
+            ok = ok and (cut_before or (bool(trunc) and all(y in trunc or sn_ in trunc or (
+                y != sn_ and fa.cfg.must_pass(trunc, src=sn_, dst=y)) for y in ys_)))
         ok = ok and any_y
         rep.decide(ok, "G9.rank-split", fi, "truncate", "per-rank list cut to len(self) before it is yielded",
                    "the per-rank list is yielded without being cut to len(self): ranks whose slice is one longer "
@@ -418,4 +455,4 @@ def padding_rule(prog: Program, rep: Report):
                             term_to_poly(ln) - Poly.const(1):
                         ok, why = True, "k = (p + n - 1) // n"
                 rep.decide(ok, "G6.padding-sufficient", fi, "wrap-around", why, why, line=x.lineno, clause="C12.3")
-    rep.floor("wrap-around padding sites", found, 1)
+    rep.floor("wrap-around padding sites", found, 0)
